@@ -226,13 +226,13 @@ theorem tcp_isolation {U : Type} (P : UptimeParams U) (fc : Seg → Bool) (c : T
     (fun p => tcp_local P fc p) c tr cap () hne
 
 /-- TLS: a segment touches only the reader of its own directed 4-tuple. -/
-theorem tls_local {R S : Type} (P : TlsParams R S) (s : Seg) :
-    (tlsProg P s).Local (fun k => k = (⟨s.src, s.dst⟩ : FlowKey)) := by
+theorem tlsBody_local {R S : Type} (P : TlsParams R S) (s : Seg) :
+    (tlsBody P s).Local (fun k => k = (⟨s.src, s.dst⟩ : FlowKey)) := by
   have hw : ∀ r, (tlsWithReader P ⟨s.src, s.dst⟩ s.payload r).Local (fun k => k = (⟨s.src, s.dst⟩ : FlowKey)) := by
     intro r
     unfold tlsWithReader
     local_tac
-  unfold tlsProg
+  unfold tlsBody
   repeat (first
     | exact hw _
     | exact Prog.Local.ret _
@@ -241,6 +241,14 @@ theorem tls_local {R S : Type} (P : TlsParams R S) (s : Seg) :
     | intro _
     | split
     | dsimp only)
+
+/-- The SYN reset removes only the segment's own key. -/
+theorem tls_local {R S : Type} (P : TlsParams R S) (s : Seg) :
+    (tlsProg P s).Local (fun k => k = (⟨s.src, s.dst⟩ : FlowKey)) := by
+  unfold tlsProg
+  split
+  · exact Prog.Local.remove _ _ rfl (tlsBody_local P s)
+  · exact tlsBody_local P s
 
 theorem tls_isolation {R S : Type} (P : TlsParams R S) (c : FlowKey) (tr : List Seg) (cap : Nat)
     (hne : NoEvict (tlsAnalyzer P) ({ cap := cap }, ()) tr) :
@@ -343,11 +351,11 @@ end
 
 /-- HTTP: with parsers that keep no state between calls, a segment touches only the flow of its
 own connection (stored under its own directed key or the reversed one). -/
-theorem http_local {γ Q P : Type} (H : HttpParams γ Q P) (hs : Stateless H) (s : Seg) :
-    (httpProg H s).Local (fun k => httpConnOfKey k = httpConnOf s) := by
+theorem httpDispatch_local {γ Q P : Type} (H : HttpParams γ Q P) (hs : Stateless H) (s : Seg) :
+    (httpDispatch H s).Local (fun k => httpConnOfKey k = httpConnOf s) := by
   have hk : httpConnOfKey ⟨s.src, s.dst⟩ = httpConnOf s := rfl
   have hr : httpConnOfKey ⟨s.dst, s.src⟩ = httpConnOf s := connOf_comm _ _
-  unfold httpProg
+  unfold httpDispatch
   refine .get _ _ hk (fun f => ?_)
   cases f with
   | some f => exact withFlow_local H hs _ _ hk _ _ _
@@ -361,6 +369,19 @@ theorem http_local {γ Q P : Type} (H : HttpParams γ Q P) (hs : Stateless H) (s
       by_cases hsyn : s.syn = true
       · rw [if_pos hsyn]; exact .insert _ _ _ _ hk (.ret _)
       · rw [if_neg hsyn]; exact .ret _
+
+/-- The SYN reset removes only the two directed keys of the segment's own connection. -/
+theorem http_local {γ Q P : Type} (H : HttpParams γ Q P) (hs : Stateless H) (s : Seg) :
+    (httpProg H s).Local (fun k => httpConnOfKey k = httpConnOf s) := by
+  have hk : httpConnOfKey ⟨s.src, s.dst⟩ = httpConnOf s := rfl
+  have hr : httpConnOfKey ⟨s.dst, s.src⟩ = httpConnOf s := connOf_comm _ _
+  unfold httpProg
+  split
+  · refine .get _ _ hk (fun f => ?_)
+    split
+    · exact httpDispatch_local H hs s
+    · exact .remove _ _ hk (.remove _ _ hr (httpDispatch_local H hs s))
+  · exact httpDispatch_local H hs s
 
 /-- **C07 for HTTP, partial**: isolation per *undirected* connection, for stateless parsers.
 The hypothesis `Stateless` is what the shared HPACK decoder of `Http2Parser` violates
